@@ -250,9 +250,9 @@ Section Literal.
   Lemma al_byteseq bs : (forall fwd q e, okp q -> match_bytes fwd h q bs = Ok (Some e) -> okp e) -> al (NByteSequence bs).
   Proof.
     intro Hc. split.
-    - intros [|f] fwd [q G] r Hx E; [discriminate|]. rewrite (byteseq_ir f fwd bs q G Hx) in E. unfold OptBytes.mbs in E.
+    - intros [|f] fwd [q G] r Hx E; [discriminate|]. rewrite (byteseq_ir f fwd bs q G (proj1 Hx)) in E. unfold OptBytes.mbs in E.
       destruct (match_bytes fwd h q bs) as [e|[q'|]] eqn:Em; inversion E; subst; constructor; [|constructor].
-      eapply Hc; eauto.
+      apply (oks_move okp q G q' Hx). eapply Hc; [exact (proj1 Hx)|exact Em].
     - intros fwd s Es. unfold single_step, leaf_code in Es. injection Es as Hs. subst s.
       intros q q' Hq E. change (run (emit_byte_sequence (negb fwd) bs) fwd q = Some (Some q')) in E.
       rewrite (byteseq_run ix unicode h fwd bs q (Hk0 q Hq)) in E. unfold OptBytes.mbs in E.
@@ -368,7 +368,7 @@ Section Literal.
     intros Hl Hall. split.
     - intros [|f] fwd [q G] r Hx E; [discriminate|]. rewrite (byteset_ir f fwd cs q G Hl) in E.
       destruct (byteset_step fwd cs q) as [[q'|]|] eqn:Es; inversion E; subst; constructor; [|constructor].
-      eapply byteset_step_clo; eauto.
+      apply (oks_move okp q G q' Hx). eapply byteset_step_clo; [exact Hall|exact (proj1 Hx)|exact Es].
     - intros fwd s Es. destruct (byteset_single (negb fwd) fwd cs Hl) as [s0 [Es0 Hs0]]. rewrite Es0 in Es. inversion Es; subst s0.
       intros q q' Hq E. rewrite Hs0 in E. eapply byteset_step_clo; eauto.
   Qed.
@@ -394,7 +394,8 @@ Section Literal.
   Proof.
     intros [Hc _] fwd q e Hq E. pose proof (Hc 1%nat fwd (q, []) [(e, [])]) as Hr.
     rewrite (byteseq_ir 0 fwd bs q [] Hq) in Hr. unfold OptBytes.mbs in Hr. rewrite E in Hr.
-    specialize (Hr Hq eq_refl). inversion Hr; subst. assumption.
+    assert (Hq0 : oks okp (q, [])) by (split; [exact Hq|constructor]).
+    specialize (Hr Hq0 eq_refl). inversion Hr as [|y0 l0 Hy _]; subst. exact (proj1 Hy).
   Qed.
 
   Lemma al_byteseq_nil : al (NByteSequence []).
@@ -457,7 +458,7 @@ Section Literal.
   Proof.
     intros Hx Hp E1 E2. pose proof (obindm_comp _ _ xs ys r E1 E2) as Hc.
     eapply (obindm_fleP (oks okp)); [|exact Hx|exact Hc].
-    intros [q G] r0 Hq Er. cbn beta in Er. rewrite (byteseq_ir f fwd pb q G Hq) in Er.
+    intros [q G] r0 [Hq HG] Er. cbn [fst snd] in Hq. cbn beta in Er. rewrite (byteseq_ir f fwd pb q G Hq) in Er.
     rewrite (byteseq_ir f fwd _ q G Hq), (mbs_merged fwd pb cb q Hq).
     destruct (mbs fwd pb q) as [[q1|]|] eqn:Em; try discriminate.
     - cbn [obindm] in Er. assert (Hq1 : okp q1).
@@ -470,7 +471,7 @@ Section Literal.
 
   Lemma byteseq_nil_id f fwd : forall xs, okl okp xs -> obindm (IR (S f) (NByteSequence []) fwd) xs = Some xs.
   Proof.
-    induction xs as [|[q G] xs IH]; intro Hx; [reflexivity|]. inversion Hx as [|x0 l0 Hq Hxs]; subst. cbn [obindm].
+    induction xs as [|[q G] xs IH]; intro Hx; [reflexivity|]. inversion Hx as [|x0 l0 [Hq HG] Hxs]; subst. cbn [fst] in Hq. cbn [obindm].
     rewrite (byteseq_ir f fwd [] q G Hq). unfold OptBytes.mbs. rewrite (mb_nil h fwd q (Hk0 q Hq)). rewrite (IH Hxs). reflexivity.
   Qed.
 
@@ -533,7 +534,7 @@ Section Literal.
       destruct Hm as (A1 & Q1 & N1 & S1).
       split; [|split; [exact Q1|split; [apply al_cat; exact A1|exact N1]]].
       split; [|apply rstep_nol1; reflexivity].
-      apply (rres_fleO ix unicode utf16 h okp (negb lb) _ _ 0%nat). intros [|f] x0 r Hx Er; [discriminate|].
+      apply (rres_fleS ix unicode utf16 h okp (negb lb) _ _ 0%nat). intros [|f] x0 r Hx Er; [discriminate|].
       rewrite Nat.add_0_r. rewrite ir_cat_eq in *. destruct f as [|f].
       + cbn [cat_results obindm] in Er. discriminate.
       + apply S1; [constructor; [exact Hx|constructor]|exact Er].
